@@ -14,7 +14,9 @@ stored FIRST in any representation (constructed directly in it from independent 
 or converted to it), then converted again (every ordered pair of pressure modes and of loading bases is visited by every routine),
 optionally exported and re-imported in between; loading scaling; alpha-s with an independently converted reference (also a reference stored
 in relative mode, where the pinned tree is right); Henry constants in own units (unit-factor prediction from the SI tables for every
-pressure representation); isosteric enthalpy of sets in a common representation AND of mixed sets (every isotherm in its own representation).
+pressure representation and every unit of the molar and mass loading tables; misses that a control experiment attributes to the scale of the stored
+loading numbers alone are the known finding S45-C15a); psd_dft: what is handed to the kernel fit (1e-9) and what the fit returns (1e-6; misses with
+agreeing fit inputs are the known finding S46-C15b); isosteric enthalpy of sets in a common representation AND of mixed sets (every isotherm in its own representation).
 """
 import json
 import math
@@ -270,11 +272,13 @@ def run(ck):
     ROUTINES["psd_micro RY slit"] = (lambda i: pgc.psd_microporous(i, psd_model="RY", pore_geometry="slit", branch="ads", p_limits=(1e-6, 0.2)), *PSD, 2e-4)
     ROUTINES["psd_micro RY cylinder"] = (lambda i: pgc.psd_microporous(i, psd_model="RY", pore_geometry="cylinder", branch="ads", p_limits=(1e-5, 1.2e-3)), *PSD, 2e-4)
     ROUTINES["psd_micro HK-CY sphere"] = (lambda i: pgc.psd_microporous(i, psd_model="HK-CY", pore_geometry="sphere", branch="ads", p_limits=(1e-6, 0.2)), [], ["pore_widths"], 2e-4)
-    # kernel fit: SLSQP started from a flat distribution stops at a loose tolerance, and last-bit differences of the input change its path (pinned tree, same isotherm
-    # in Pa / torr / relative: distribution up to 27 %, cumulative volume 2 %, fitted isotherm 0.16 % apart).  What can be asserted sharply is what the routine HANDS to the
-    # fit: the (pressure, loading) arrays that reach `psd_dft_kernel_fit` are recorded (the call is looked up in the module at call time) and compared to 1e-9; of the
-    # results only the fitted isotherm (7 x the measured spread) and the kernel's pore widths are compared.  The fit costs 0.6 - 2 s: it is carried out `dft_fits[0]` times
-    # per isotherm (quick tier: twice on the synthetic isotherm), for the other calls the recorder answers in its place (everything psd_dft itself does still runs)
+    # kernel fit: SLSQP (absolute ftol = 1e-4, start vector 0) stops far from the minimum, and last-bit differences of the input change its path (unchanged tree, same
+    # isotherm in Pa / torr / mol: distribution 5 - 48 %, cumulative volume 0.4 - 3 %, fitted isotherm 0.01 - 0.09 % apart; loadings x 0.001: fitted isotherm 8 %): known
+    # finding S46-C15b.  Two oracles: (1) what the routine HANDS to the fit - the (pressure, loading) arrays that reach `psd_dft_kernel_fit` are recorded (the call is looked
+    # up in the module at call time) and compared to 1e-9: every unit / mode / basis defect of psd_dft itself shows here; (2) what the fit RETURNS (fitted isotherm,
+    # distribution, cumulative volume) at 1e-6; a miss of (2) carries `fit_inputs_agree` = outcome of (1) on the same pair, and only misses with agreeing inputs match the
+    # known finding.  The fit costs 0.6 - 2 s: it is carried out `dft_fits[0]` times per isotherm (quick tier: base + one conversion + one loading scale on the synthetic
+    # isotherm), for the other calls the recorder answers in its place (everything psd_dft itself does still runs)
     import pygaps.characterisation.psd_kernel as pk_mod
     dft_fits = [0]
 
@@ -297,10 +301,13 @@ def run(ck):
             pk_mod.psd_dft_kernel_fit = orig
         out = {"fit_input_pressure": seen["fit_input_pressure"], "fit_input_loading": seen["fit_input_loading"]}
         if seen.get("real"):
-            out.update(pore_widths=r["pore_widths"], kernel_loading=r["kernel_loading"])
+            out.update(pore_widths=r["pore_widths"], kernel_loading=r["kernel_loading"], pore_distribution=r["pore_distribution"], pore_volume_cumulative=r["pore_volume_cumulative"])
         return out
-    OPTIONAL = {"kernel_loading", "pore_widths"}     # present only when the fit was carried out on both sides
-    ROUTINES["psd_dft"] = (dft, ["fit_input_loading", "kernel_loading"], ["fit_input_pressure", "pore_widths"], {"kernel_loading": 2e-2, None: 1e-9})
+    FIT_OUTPUTS = ("kernel_loading", "pore_distribution", "pore_volume_cumulative")   # what the SLSQP fit returns (known finding S46-C15b when they alone move)
+    OPTIONAL = {*FIT_OUTPUTS, "pore_widths"}     # present only when the fit was carried out on both sides
+    # tolerance of the fit outputs: 1e-6 = the tolerance of the deterministic routines.  A converged non-negative least squares solution of the same problem (scipy nnls on the
+    # recorded fit inputs, Takeda 5A in Pa / torr / relative% / mol / mg / L gas) moves by <= 2e-13 (distribution), 1e-15 (fitted isotherm) under re-expression of the units.
+    ROUTINES["psd_dft"] = (dft, ["fit_input_loading", *FIT_OUTPUTS], ["fit_input_pressure", "pore_widths"], {**{k: 1e-6 for k in FIT_OUTPUTS}, None: 1e-9})
     DFT_FITS = {"synthetic micro": 2} if not thorough else {"synthetic micro": 8, "Takeda": 4}
     # automatic section search of the t-plot (no limits given): the sections are compared when their number agrees
     ROUTINES["t_plot auto"] = (lambda i: pgc.t_plot(i, thickness_model="Halsey"), ["results[0].area", "results[0].adsorbed_volume", "results[0].slope"], ["t_curve", "results[0].corr_coef"], 1e-6)
@@ -321,6 +328,12 @@ def run(ck):
 
     def compare(name, base, other, keys, tol, sig, detail, factor=1.0, what="representation"):
         sig = attribute(name, sig, None, what)
+        fit_sig = {}
+        if name == "psd_dft":
+            # what psd_dft HANDED to the kernel fit on the two sides agrees (to 1e-9, after the factor): then a difference of the fit's outputs is the fit's own doing
+            def same(k_, f_):
+                return k_ in base and k_ in other and base[k_].shape == other[k_].shape and bool(np.all(np.abs(base[k_] * f_ - other[k_]) <= 1e-9 * np.max(np.abs(base[k_] * f_))))
+            fit_sig = {"fit_output": True, "fit_inputs_agree": same("fit_input_pressure", 1.0) and same("fit_input_loading", factor)}
         ref_scale = max([float(np.max(np.abs(v))) for kk, v in base.items() if v.size and np.all(np.isfinite(v)) and kk.split(".")[0] == keys[0].split(".")[0]] + [1e-300]) if keys else 1.0
         for k in keys:
             if (k not in base and k not in other) or (name == "psd_dft" and k in OPTIONAL and (k not in base or k not in other)):
@@ -335,7 +348,7 @@ def run(ck):
             e = float(np.max(np.abs(a - b)) / scale)
             note(f"{name}:{k}", e)
             if not (e <= (tol.get(k, tol[None]) if isinstance(tol, dict) else tol)):
-                ck.fail_case({**sig, "clause": f"result changes with the {what} of the isotherm", "quantity": k.split(".")[-1]},
+                ck.fail_case({**sig, **(fit_sig if name == "psd_dft" and k in FIT_OUTPUTS else {}), "clause": f"result changes with the {what} of the isotherm", "quantity": k.split(".")[-1]},
                              {**detail, "key": k, "before": a.ravel()[:4].tolist(), "after": b.ravel()[:4].tolist(), "relative_difference": e})
 
     def pkind(iso):
@@ -403,6 +416,8 @@ def run(ck):
                 raw[iso.loading_key] = raw[iso.loading_key] * k
                 scaled = pg.PointIsotherm(isotherm_data=raw, pressure_key=iso.pressure_key, loading_key=iso.loading_key, **iso.to_dict())
                 ck.count(("hom", iname, rname, k), bucket=f"homogeneity:{rname}")
+                if rname == "psd_dft" and "kernel_loading" in base:
+                    dft_fits[0] = 1     # the fit is carried out on the scaled isotherm as well (homogeneity of the fit's outputs: known finding S46-C15b)
                 try:
                     other = flat("", fn(scaled), {})
                     if rname.startswith("alpha_s"):
@@ -410,10 +425,8 @@ def run(ck):
                         compare(rname, base, other, ["results[0].area", "results[0].adsorbed_volume", "results[0].slope"], tol, {"routine": rname}, {"isotherm": iname, "scale": k}, factor=k, what="scale of the loadings")
                         compare(rname, base, other, ["alpha_curve", "results[0].corr_coef"], tol, {"routine": rname}, {"isotherm": iname, "scale": k}, what="scale of the loadings")
                     else:
-                        if rname == "psd_dft":
-                            # the SLSQP fit is not scale free on the pinned tree (loadings x 0.001: fitted isotherm 8 % off k x the original; reported as a candidate defect together
-                            # with the Henry fits): the scaling law is asserted for what reaches the fit
-                            ext = ["fit_input_loading"]
+                        # (psd_dft: the scaling law is asserted for what reaches the fit AND for what the fit returns; the SLSQP fit is not scale free on the unchanged tree -
+                        #  loadings x 0.001 or x 1000: fitted isotherm 8 % off k x the original, distribution 82 %; x 0.5: distribution 52 % - known finding S46-C15b)
                         # (the Cheng-Yang coverage is loading / (1.01 max loading): scale free, so the widths of the -CY models are intensive too)
                         compare(rname, base, other, ext, tol, {"routine": rname}, {"isotherm": iname, "scale": k}, factor=k, what="scale of the loadings")
                         compare(rname, base, other, inten, tol, {"routine": rname}, {"isotherm": iname, "scale": k}, what="scale of the loadings")
@@ -515,17 +528,52 @@ def run(ck):
     # ------------------------------------------------------------------ initial Henry constants: in the isotherm's own units
     pf = {"Pa": 1.0, "kPa": 1e3, "MPa": 1e6, "mbar": 1e2, "bar": 1e5, "atm": 101325.0, "mmHg": 133.322387415, "torr": 101325.0 / 760}
     lf = {"mmol": 1e-3, "mol": 1.0, "kmol": 1e3}
-    # TODO(candidate defect, reported): with loadings stored in kmol/g or kg/g (numbers below about 1e-3) initial_henry_slope / initial_henry_virial on the PINNED tree return
-    # constants that are off the unit-factor prediction by factors 6 .. 3000 for every pressure representation (scipy least_squares stops at its absolute default tolerances near
-    # the starting guess: Takeda 5A in kmol: slope 18 x, virial 3.7 x the converted constant; 1.9e-4 off in mol where the largest loading is 0.02, 6e-3 off where it is 0.003).
-    # Until it is decided whether that is a defect to repair or a known finding, the histories below use only loading units in which the largest stored loading is >= 0.1
-    # (`henry_table`; kmol and kg never qualify).  The volume bases are left out: they are covered by the other routines.
-    HENRY_LOAD = {"molar": ["mmol", "mol", "cm3(STP)", "mL(STP)", "L(STP)"], "mass": ["mg", "g"]}
+    # Known finding S45-C15a (same root as S33 of C12): with SMALL stored loading numbers (kmol/g, kg/g: numbers below about 1e-3) initial_henry_slope / initial_henry_virial
+    # on the unchanged tree return constants that are off the unit-factor prediction by factors 3 .. 3000 for every pressure representation (scipy least_squares is called with
+    # unscaled variables and its default ABSOLUTE gradient tolerance: the fit stops near its starting guess.  Takeda 5A in kmol: slope 18.5 x, virial 3.7 x the converted
+    # constant; 1.9e-4 off in mol where the largest loading is 0.02, 6e-3 off where it is 0.003).  The histories reach every unit of the molar and mass tables again.  A miss
+    # is ATTRIBUTED by a control experiment, not by a threshold on the numbers: the SAME stored data with the loading column multiplied by the power of ten that brings its
+    # largest value into [1, 10) are analysed by the same call; if that answer (divided by the power of ten) does meet the unit-factor prediction, the stored numbers were
+    # right and only their scale defeated the optimiser -> signature key `cured_by_rescaling: True` (the known finding); a wrong conversion factor, a routine reading another
+    # unit than the isotherm's own, ... is not cured by the control and stays a VIOLATION.  The volume bases are left out: they are covered by the other routines.
+    HENRY_LOAD = {"molar": LOAD["molar"], "mass": LOAD["mass"]}
+    HENRY_CLAUSE = "initial Henry constant does not change by exactly the unit factors"
 
-    def henry_table(iso_):
-        top = float(np.max(iso_.data_raw[iso_.loading_key]))
-        t = {b: [u for u in us if top * l_factor(iso_, (b, u)) >= 0.1] for b, us in HENRY_LOAD.items()}
-        return {b: us for b, us in t.items() if us}
+    def henry_case(meth, call, c, want, tol, sig, detail, key):
+        """one own-units comparison; `call(isotherm)` -> constant.  Returns nothing; reports through ck.fail_case"""
+        sig = {"routine": meth, "routine_family": "initial_henry", **sig}
+        err = k1 = None
+        try:
+            k1 = float(call(c))
+        except Exception as e:  # noqa
+            err = e
+        if err is None:
+            e = relerr(k1, want)
+            if e <= tol:
+                note(key, e)
+                return
+        # control: the same stored numbers, loading column x 10^m with the largest loading in [1, 10)
+        control = {}
+        cured = False
+        try:
+            lcol = c.data_raw[c.loading_key]
+            top = float(np.max(np.abs(lcol)))
+            s10 = 10.0 ** (-math.floor(math.log10(top)))
+            control["loading_numbers_times"] = s10
+            if s10 != 1.0:
+                raw = c.data_raw.copy()
+                raw[c.loading_key] = lcol * s10
+                kc = float(call(pg.PointIsotherm(isotherm_data=raw, pressure_key=c.pressure_key, loading_key=c.loading_key, **c.to_dict()))) / s10
+                control.update(got=kc, relative_difference=relerr(kc, want))
+                note(key + " [control of S45-C15a]", control["relative_difference"])
+                cured = control["relative_difference"] <= tol
+        except Exception as e2:  # noqa
+            control["error"] = repr(e2)[:200]
+        if err is not None:
+            ck.fail_case({**sig, "clause": "routine fails on the converted isotherm", "error": type(err).__name__, "cured_by_rescaling": cured}, {**detail, "error": repr(err)[:200], "control": control})
+        else:
+            ck.fail_case({**sig, "clause": HENRY_CLAUSE, "cured_by_rescaling": cured}, {**detail, "got": k1, "expected": want, "relative_difference": relerr(k1, want), "control": control})
+
     for iname in ("synthetic micro", "Takeda"):
         if iname not in isos:
             continue
@@ -540,20 +588,12 @@ def run(ck):
                 continue
             if not meth.endswith("limits"):
                 for j in range(NCONV):
-                    pu, lu = rng.choice(["bar", "kPa", "atm", "torr", "mbar"]), rng.choice(["mmol", "mol"])
+                    pu, lu = rng.choice(["bar", "kPa", "atm", "torr", "mbar"]), rng.choice(["mmol", "mol", "kmol"])
                     c = clone(iso)
                     c.convert(pressure_unit=pu, loading_unit=lu)
                     ck.count(("henry", iname, meth, pu, lu), bucket="own units:" + meth)
-                    try:
-                        k1 = float(fn(c))
-                    except Exception as e:  # noqa
-                        ck.fail_case({"routine": meth, "clause": "routine fails on the converted isotherm", "error": type(e).__name__}, {"isotherm": iname, "units": [pu, lu], "error": repr(e)[:200]})
-                        continue
                     want = k0 * (lf["mmol"] / lf[lu]) / (pf["bar"] / pf[pu])
-                    e = relerr(k1, want)
-                    note(meth, e)
-                    if e > 2e-3:
-                        ck.fail_case({"routine": meth, "clause": "initial Henry constant does not change by exactly the unit factors"}, {"isotherm": iname, "units": [pu, lu], "got": k1, "expected": want, "base": k0})
+                    henry_case(meth, fn, c, want, 2e-3, {}, {"isotherm": iname, "units": [pu, lu], "base": k0}, meth)
             # after a history, in EVERY pressure representation (relative modes: the constant is per unit of p/p0 resp. per %), molar and mass loadings:
             # the expected factor comes from the independent SI tables and depends on the final representation only
             # (the slope method refits after dropping one row at a time: its histories run on the first 25 points)
@@ -564,24 +604,19 @@ def run(ck):
                 ck.count(("henry-base", iname, meth, "head"), nontrivial=False, bucket="henry base refused: " + type(e).__name__)
                 continue
             for j in range(ck.n(5, 14)):
-                hist = history(meth, table=henry_table(iso_h))
+                hist = history(meth, table=HENRY_LOAD)
                 d = hdesc(hist)
                 ck.count(("henry-hist", iname, meth, json.dumps(d, sort_keys=True, default=str)), bucket="own units after a history:" + meth)
                 try:
                     c = build(iso_h, hist)
                     fp, fl = p_factor(iso, (c.pressure_mode, c.pressure_unit)), l_factor(iso, (c.loading_basis, c.loading_unit))
-                    k1 = float(fn(c, fp))
                 except Exception as e:  # noqa
-                    ck.fail_case({"routine": meth, "clause": "routine fails on the converted isotherm", "error": type(e).__name__}, {"isotherm": iname, "history": d, "error": repr(e)[:200]})
+                    ck.fail_case({"routine": "convert", "clause": "a valid chain of conversions is refused", "error": type(e).__name__}, {"isotherm": iname, "history": d, "error": repr(e)[:300]})
                     continue
-                want = k0 * fl / fp
-                e = relerr(k1, want)
-                note(meth + " (history)", e)
                 # (virial fit: the optimiser ends on one of a few plateaus, worst 9.0e-4 over 140 representations of the two isotherms on the pinned tree)
-                if e > (4e-3 if "virial" in meth else 2e-3):
-                    ck.fail_case({"routine": meth, "clause": "initial Henry constant does not change by exactly the unit factors", "history": "stored first in one representation, then converted"},
-                                 {"isotherm": iname, "history": d, "stored_as": [c.pressure_mode, c.pressure_unit, c.loading_basis, c.loading_unit], "got": k1, "expected": want, "base": k0,
-                                  "pressure_factor": fp, "loading_factor": fl})
+                henry_case(meth, lambda i, fp=fp: fn(i, fp), c, k0 * fl / fp, 4e-3 if "virial" in meth else 2e-3, {"history": "stored first in one representation, then converted"},
+                           {"isotherm": iname, "history": d, "stored_as": [c.pressure_mode, c.pressure_unit, c.loading_basis, c.loading_unit], "base": k0, "pressure_factor": fp, "loading_factor": fl},
+                           meth + " (history)")
 
     # ------------------------------------------------------------------ isosteric enthalpy: all isotherms in any common representation
     R = 6.02214076e23 * 1.380649e-23
@@ -763,7 +798,9 @@ def run(ck):
                       "(b) histories: stored first in representation A (constructed there from independent SI tables, or converted), then converted to B, every ordered pair of pressure modes and "
                       "of loading bases visited cyclically by every routine, same unit label across bases preferred, export -> import at any position; "
                       "loading scale factors 0.001 and 1000 and one of 0.5 / 3; alpha-s with an independently converted reference and with a reference in relative mode after any history; model isotherms "
-                      "simple_bet / simple_lang in any representation; Henry constants in own units (5 x 2 units, and every final representation of a history: factor from the SI tables); "
+                      "simple_bet / simple_lang in any representation; Henry constants in own units (5 x 3 units, and every final representation of a history over the complete molar and mass unit tables: "
+                      "factor from the SI tables; a miss is attributed to the scale of the stored loading numbers by re-running the call on the same data x 10^m); psd_dft: fit inputs and fit outputs, "
+                      "also under loading scale factors; "
                       "isosteric enthalpy of three isotherms in common representations, in mixed representations (own history per isotherm), and converted in place after use")
-    ck.assumptions += ["HK solver tolerance 2e-4 (numerical root finding)", "kernel fit (SLSQP) tolerance 1e-3", "CoolProp properties are inputs common to both sides",
+    ck.assumptions += ["HK solver tolerance 2e-4 (numerical root finding)", "kernel fit outputs compared at 1e-6 (an exact non-negative least squares solution of the same inputs moves by < 2e-13 under re-expression of the units)", "CoolProp properties are inputs common to both sides",
                        "alpha-s: representation invariance can be asserted only for a reference stored in relative mode (known finding S15a for the others)"]
